@@ -203,5 +203,5 @@ CHECKS = {
               "(a sample) and random ones run in real time against the real hyper transport through a TCP relay of the harness that holds or cuts the link "
               "and can stop a large reply half-way; RpcNet.tla models a reply as head and body and tells the pre-repair behaviour (timeout ending with the head) apart."),
         design_ref="DESIGN.md section 7 C14 and 14.2",
-        note="Simulated network (turmoil 0.4) and loopback TCP through a relay. Quick tier runs every 80th model schedule plus 400 random ones in turmoil, every 320th plus 300 random ones on real sockets (real time: a timed request may be 1 s late); thorough every 12th plus 4000 / every 48th plus 3000. Every other request goes through a clone of the configured client. Request timeouts are 500 ms and 2 s in the model's schedules (shorter than / equal to the 2 s connect timeout), also 1 s and 3 s in the random ones."),
+        note="Simulated network (turmoil 0.4) and loopback TCP through a relay. Quick tier runs every 80th model schedule plus 400 random ones in turmoil, every 320th plus 300 random ones on real sockets (real time: a timed request may be 2 s late; without a fault a request may time out honestly, never before its time); thorough every 12th plus 4000 / every 48th plus 3000. Every other request goes through a clone of the configured client. Request timeouts are 500 ms and 2 s in the model's schedules (shorter than / equal to the 2 s connect timeout), also 1 s and 3 s in the random ones."),
 }
